@@ -5,6 +5,7 @@ use thiserror::Error;
 #[derive(Debug, Error)]
 pub enum Error {
     /// An IO error occurred
+    #[cfg(not(tikv_raft_rs_verif))]
     #[error("{0}")]
     Io(#[from] std::io::Error),
     /// A storage error occurred.
@@ -55,6 +56,7 @@ impl PartialEq for Error {
             (Error::StepPeerNotFound, Error::StepPeerNotFound) => true,
             (Error::ProposalDropped, Error::ProposalDropped) => true,
             (Error::Store(ref e1), Error::Store(ref e2)) => e1 == e2,
+            #[cfg(not(tikv_raft_rs_verif))]
             (Error::Io(ref e1), Error::Io(ref e2)) => e1.kind() == e2.kind(),
             (Error::StepLocalMsg, Error::StepLocalMsg) => true,
             (Error::ConfigInvalid(ref e1), Error::ConfigInvalid(ref e2)) => e1 == e2,
@@ -84,6 +86,7 @@ pub enum StorageError {
     #[error("snapshot is temporarily unavailable")]
     SnapshotTemporarilyUnavailable,
     /// Some other error occurred.
+    #[cfg(not(tikv_raft_rs_verif))]
     #[error("unknown error {0}")]
     Other(#[from] Box<dyn std::error::Error + Sync + Send>),
 }
